@@ -115,14 +115,16 @@ func c16ParseName(s string) c16Name {
 		}
 	}
 	if rest != "" {
-		if rest[0] != ':' || !c16IsDigits(rest[1:]) || len(rest[1:]) > 5 {
+		if rest[0] != ':' || !c16IsDigits(rest[1:]) || len(rest[1:]) > 18 {
 			return bad
 		}
 		n.PortText = rest[1:]
 		p, _ := strconv.Atoi(n.PortText)
 		n.Port = p
 		if p > 65535 {
-			n.Dubious = "port-above-65535"
+			n.Dubious = "port-above-65535" // 1*5DIGIT by the grammar, no port number
+		} else if len(n.PortText) > 5 {
+			n.Dubious = "port-with-more-than-5-digits" // 000080: not 1*5DIGIT, yet a port number
 		}
 	}
 	n.Valid = true
@@ -381,6 +383,21 @@ func c16Resolve(name string, wk c16WKSpec, srvOrig, srvDeleg c16SRVSpec) c16Expe
 	}
 	if ok, _ := c16WKHonoured(wk); ok {
 		d := c16ParseName(wk.Delegate)
+		if d.Valid && d.Dubious != "" {
+			// delegated name of doubtful validity: everything defensible is accepted
+			plain := d
+			plain.Dubious = ""
+			e := c16Expect{OrErr: true, Step: "3-delegate-dubious", Note: "delegated name of doubtful validity: " + d.Dubious, WKReq: 1}
+			e.Alts, _, _ = c16SRVOrDefault(name, srvOrig)
+			switch {
+			case d.Port >= 0:
+				e.Alts = append(e.Alts, []c16Target{{Dest: wk.Delegate, Host: wk.Delegate, SNI: d.Host}})
+			default:
+				more, _, _ := c16SRVOrDefault(wk.Delegate, srvDeleg)
+				e.Alts = append(e.Alts, more...)
+			}
+			return e
+		}
 		switch {
 		case !d.Valid:
 			// delegated name invalid: refusing, or treating the reply as invalid (step 4), are both
